@@ -130,6 +130,18 @@ OutGrid(h, w) == LET n == h * w e == GridEdges(h, w) IN
                nbr |-> [v \in Vs(n) |-> {u \in Vs(n) : <<u, v>> \in e \/ <<v, u>> \in e}],
                coords |-> [v \in Vs(n) |-> <<v \div w, v % w>>]]
 GCases == {[kind |-> "grid", n |-> hw[1] * hw[2], e |-> {}, root |-> hw[1], par |-> <<hw[2]>>] : hw \in ((1..4) \X (1..4)) \ {<<1, 1>>}}
+\* ---- predefined graphs on the vertices 0..n-1 (directed edge sets; undirected classes take the symmetric closure) ------------
+ChainEdges(n, closed) == {<<i, i + 1>> : i \in 0..(n - 2)} \cup (IF closed THEN {<<n - 1, 0>>} ELSE {})
+StarEdges(n, r) == {<<r, v>> : v \in Vs(n) \ {r}}
+CompleteEdges(n) == {<<i, j>> \in Vs(n) \X Vs(n) : i < j}
+PredefEdges(c) == CASE c.shape = "chain" -> ChainEdges(c.n, c.closed) [] c.shape = "star" -> StarEdges(c.n, c.root)
+                    [] c.shape = "complete" -> CompleteEdges(c.n) [] OTHER -> {}
+OutPredef(c) == [kind |-> "predef", shape |-> c.shape, n |-> c.n, closed |-> c.closed, root |-> c.root, edges |-> PredefEdges(c),
+                 \* an open chain and a star are rooted trees (the tree classes accept them)
+                 is_tree |-> (c.shape = "star" \/ (c.shape = "chain" /\ ~c.closed))]
+PCases == {[kind |-> "predef", shape |-> sh, n |-> n, closed |-> cl, root |-> r, e |-> {}, par |-> <<>>] :
+              <<sh, n, cl, r>> \in {<<sh, n, cl, r>> \in {"chain", "star", "complete", "empty"} \X (3..5) \X BOOLEAN \X (0..4) :
+                    r < n /\ (sh # "chain" => ~cl) /\ (sh # "star" => r = 0)}}
 \* ---- cases -----------------------------------------------------------------------------------------
 UCases == UNION {{[kind |-> "ug", n |-> n, e |-> e, root |-> 0, par |-> <<>>] : e \in SUBSET UPairs(n)} : n \in 1..NU}
 DCases == UNION {{[kind |-> "dg", n |-> n, e |-> e, root |-> 0, par |-> <<>>] : e \in SUBSET DPairs(n)} : n \in 1..ND}
@@ -145,8 +157,8 @@ OutRnd(i) == LET r == RndIn[i]
                [] r.kind = "dg" -> OutDx(r.n, e, M, TRUE)
                [] OTHER -> OutTx(r.n, r.root, [v \in Vs(r.n) |-> r.par[v + 1]], M \ {Vs(r.n)})
 Cases == (IF "rnd" \in Kinds THEN RndCases ELSE {}) \cup (IF "ug" \in Kinds THEN UCases ELSE {}) \cup (IF "dg" \in Kinds THEN DCases ELSE {}) \cup (IF "tree" \in Kinds THEN TCases ELSE {})
-         \cup (IF "grid" \in Kinds THEN GCases ELSE {})
-Out(c) == CASE c.kind = "grid" -> OutGrid(c.root, c.par[1]) [] c.kind = "rnd" -> OutRnd(c.idx) [] c.kind = "ug" -> OutU(c.n, c.e) [] c.kind = "dg" -> OutD(c.n, c.e) [] OTHER -> OutT(c.n, c.root, c.par)
+         \cup (IF "grid" \in Kinds THEN GCases \cup PCases ELSE {})
+Out(c) == CASE c.kind = "predef" -> OutPredef(c) [] c.kind = "grid" -> OutGrid(c.root, c.par[1]) [] c.kind = "rnd" -> OutRnd(c.idx) [] c.kind = "ug" -> OutU(c.n, c.e) [] c.kind = "dg" -> OutD(c.n, c.e) [] OTHER -> OutT(c.n, c.root, c.par)
 Init == g \in Cases /\ done = FALSE
 Next == done = FALSE /\ done' = TRUE /\ g' = g /\ CSVWrite("%1$s", <<ToJson(Out(g))>>, IOEnv.OUT_FILE)
 Spec == Init /\ [][Next]_<<g, done>>
@@ -174,5 +186,12 @@ GridIsLattice == g.kind = "grid" =>
    /\ \A v \in Vs(o.n) : LET i == o.coords[v][1] j == o.coords[v][2] IN
          /\ Cardinality(o.nbr[v]) = (IF i > 0 THEN 1 ELSE 0) + (IF i < h - 1 THEN 1 ELSE 0) + (IF j > 0 THEN 1 ELSE 0) + (IF j < w - 1 THEN 1 ELSE 0)
          /\ \A u \in o.nbr[v] : LET a == o.coords[u][1] - i b == o.coords[u][2] - j IN a * a + b * b = 1
+\* a closed chain is one directed cycle through every vertex; an open chain / a star is a tree rooted at its first vertex / centre
+PredefShapes == g.kind = "predef" =>
+   LET e == PredefEdges(g) IN
+   /\ (g.shape = "chain" => Cardinality(e) = (IF g.closed THEN g.n ELSE g.n - 1) /\ HasCycleD(e, g.n) = g.closed)
+   /\ (g.shape = "chain" /\ ~g.closed => IsRootedTree(e, g.n, 0))
+   /\ (g.shape = "star" => IsRootedTree(e, g.n, g.root))
+   /\ (g.shape = "complete" => Cardinality(e) = (g.n * (g.n - 1)) \div 2)
 PrimIsMST == g.kind = "ug" => (NComp(g.e, g.n) = 1 => PrimWeight(g.e, g.n) = MSTWeight(g.e, g.n))
 =======================================================================
